@@ -56,16 +56,15 @@ Proof.
   - (* PAcqFind *)
     destruct (find_key (s_items s) (s_set s) k) as [i|] eqn:F; cbv beta iota zeta in E; unfold with_item in E; simpl in E.
     + destruct (nth_error (s_items s) i) as [it|] eqn:Hn; [destruct (i_live it)|]; try (injection E as <-; mtx_leaf).
-      Show. destruct (i_recycle it); injection E as <-; mtx_leaf.
+      destruct (i_recycle it); injection E as <-; mtx_leaf.
     + rewrite nth_app_new in E. simpl in E. injection E as <-. eapply mtx_rel_app_upd. reflexivity.
   - (* PAcqParked *) destruct (mem_id t (s_blockq s)); [discriminate|]. injection E as <-. mtx_leaf.
   - (* PAcqLock *) unfold with_item in E. destruct (nth_error (s_items s) i) as [it|] eqn:Hn; [destruct (i_live it)|]; try (injection E as <-; mtx_leaf).
-    destruct (i_mtx it) eqn:Em; [destruct n|]; injection E as <-; try mtx_leaf.
-    eapply mtx_rel_upd; [eassumption|reflexivity|auto].
+    destruct (i_mtx it) eqn:Em; [destruct n|]; injection E as <-; mtx_leaf.
   - (* PAcqSlow *) unfold with_item in E. destruct (nth_error (s_items s) i) as [it|] eqn:Hn; [destruct (i_live it)|]; try (injection E as <-; mtx_leaf).
     destruct (i_mtx it) eqn:Em; injection E as <-.
-    + eapply mtx_rel_upd; [eassumption|reflexivity|simpl; auto].
-    + eapply mtx_rel_upd; [eassumption|reflexivity|auto].
+    + eapply mtx_rel_upd; [eassumption|reflexivity|simpl; left; congruence].
+    + mtx_leaf.
   - (* PAcqSleepM *) unfold with_item in E. destruct (nth_error (s_items s) i) as [it|] eqn:Hn; [destruct (i_live it)|]; try (injection E as <-; mtx_leaf).
     destruct (i_mtx it); [|discriminate]. destruct (Nat.eqb t0 t); [|discriminate]. injection E as <-. mtx_leaf.
   - (* PAcqCheck *) unfold with_item in E. destruct (nth_error (s_items s) i) as [it|] eqn:Hn; [destruct (i_live it)|]; try (injection E as <-; mtx_leaf).
